@@ -203,6 +203,52 @@ func check(raw json.RawMessage, c *pcase, idx int) {
 			}
 		}()
 	}
+	// RemoveUninteresting is a function of the profile's CURRENT drop_frames / keep_frames and samples: a profile
+	// object that was pruned before under other expressions (the other keep set with the same drop set, or the other
+	// drop set with the same keep set), then given its samples back and the case's expressions, gives the case's result
+	if c.Op == "prune" {
+		func() {
+			defer func() {
+				if r := recover(); r != nil {
+					run.Violate("api", "prune:panic", fmt.Sprint(r), raw, conc)
+				}
+			}()
+			p := conc.Profile(ap)
+			orig := p.Copy()
+			other := func(names []string) string {
+				if len(names) == 0 {
+					return "a|b|ab|u|xb"
+				}
+				return ""
+			}
+			if idx%2 == 0 {
+				p.DropFrames, p.KeepFrames = alternation(c.Drop), other(c.Keep)
+			} else {
+				p.DropFrames, p.KeepFrames = other(c.Drop), alternation(c.Keep)
+			}
+			if err := p.RemoveUninteresting(); err != nil {
+				return
+			}
+			p.Sample, p.Location, p.Function, p.Mapping = orig.Sample, orig.Location, orig.Function, orig.Mapping
+			p.DropFrames, p.KeepFrames = alternation(c.Drop), alternation(c.Keep)
+			if err := p.RemoveUninteresting(); err != nil {
+				run.Violate("api", "prune:error", err.Error(), raw, conc)
+				return
+			}
+			// (compared with a fresh object under the same expressions, so that the recorded findings about what
+			// Prune itself does are not reported a second time here)
+			fresh := conc.Profile(ap)
+			fresh.DropFrames, fresh.KeepFrames = alternation(c.Drop), alternation(c.Keep)
+			if err := fresh.RemoveUninteresting(); err != nil {
+				return
+			}
+			jf, _ := json.Marshal(vlib.Project(fresh))
+			jp, _ := json.Marshal(vlib.Project(p))
+			if !bytes.Equal(jf, jp) {
+				run.Violate("api", "prune:after-earlier-prune", fmt.Sprintf("second RemoveUninteresting on the same profile object, expressions changed in between: %s; a fresh profile gives %s", jp, jf), raw, conc)
+			}
+		}()
+	}
 	// through the driver (a third of the cases): drop/keep frames travel in the profile, prune_from is an option
 	if idx%3 == int(run.Seed)%3 {
 		p := conc.Profile(ap)
